@@ -7,6 +7,8 @@ import (
 	"math"
 	"os"
 	"strings"
+	"time"
+	_ "time/tzdata" // host zones must load offline
 
 	"github.com/robertkrimen/otto"
 
@@ -36,6 +38,33 @@ type Input struct {
 	// its index (ToNumber order / completeness is then observed as well).
 	Wrap string `json:"wrap,omitempty"`
 	S    string `json:"s,omitempty"`
+	// Zone: the host's local time zone during the case ("" = UTC). Only set for
+	// operations ES5.1 defines independently of the local zone (acc: UTC accessors, ISO
+	// formatting and parsing, the 15.9.4.2 round trips; utc; iso).
+	Zone string `json:"zone,omitempty"`
+}
+
+// hostZones: offsets east and west, half- and quarter-hour offsets, DST on both hemispheres,
+// zones whose tz name is numeric (no abbreviation), zones whose pre-1900 local mean time differs
+// from the modern offset, a zone whose rules after 2037 differ from the 400-year-earlier year.
+var hostZones = []string{"Europe/London", "America/New_York", "Africa/Casablanca", "Asia/Kathmandu", "Africa/Abidjan", "Atlantic/Reykjavik",
+	"Australia/Lord_Howe", "Pacific/Apia", "Asia/Tehran", "America/St_Johns", "Pacific/Chatham", "fixed:+01:00", "fixed:-09:30"}
+
+func loadZone(name string) *time.Location {
+	if strings.HasPrefix(name, "fixed:") {
+		var h, m int
+		fmt.Sscanf(name[7:], "%d:%d", &h, &m)
+		off := h*3600 + m*60
+		if name[6] == '-' {
+			off = -off
+		}
+		return time.FixedZone("", off)
+	}
+	loc, err := time.LoadLocation(name)
+	if err != nil {
+		panic(err)
+	}
+	return loc
 }
 
 func init() {
@@ -43,7 +72,7 @@ func init() {
 		ID:   "C12",
 		Rule: "cases are (operation, time value / field tuple / setter history / ISO text) drawn from boundary-directed generators (era, year, month, leap-day boundaries +-1ms, range limits, fractional and non-finite values, field overflow, two-digit years, every 15.9.1.15 format variant); a case is non-trivial when the oracle result is a finite time value (or the case is an invalid-date propagation case) and it is distinct by (operation, era class, exact input)",
 		Assumptions: []string{
-			"TZ=UTC (set by ./check and the driver): LocalTZA=0 and DaylightSavingTA=0, so local accessors/setters and the multi-argument constructor must agree with the UTC formulas; other time zones are not exercised",
+			"TZ=UTC (set by ./check and the driver): LocalTZA=0 and DaylightSavingTA=0, so local accessors/setters and the multi-argument constructor must agree with the UTC formulas; a quarter of the acc/utc/iso cases run with time.Local set to one of 13 other host zones (everything ES5.1 defines independently of the local zone must not change: UTC accessors, toISOString, Date.UTC, Date.parse of ISO texts, and the 15.9.4.2 text round trips, the latter under a non-UTC zone only for years 1972..2037)",
 			"oracle: internal/refdate (ES5.1 15.9.1 formulas in exact float64 integer arithmetic, no package time; its own unit tests check it against hand-derived constants, an independent day-by-day calendar walk and an integer civil-from-days algorithm over the whole range)",
 			"Date.UTC with fewer than two arguments is implementation-dependent (15.9.4.3) and is not generated",
 			"toString/toDateString/toTimeString/toLocale*String/toUTCString contents are implementation-dependent (15.9.5.2-7, 15.9.5.42); only 'is \"Invalid Date\" exactly when the time value is NaN' is checked for them",
@@ -231,6 +260,14 @@ func hasHuge(a []gen.F) bool {
 }
 
 func generate(r *gen.Rand, i int) Input {
+	in := generate0(r, i)
+	if (in.Op == "acc" || in.Op == "utc" || in.Op == "iso") && r.Chance(1, 4) {
+		in.Zone = hostZones[r.Intn(len(hostZones))]
+	}
+	return in
+}
+
+func generate0(r *gen.Rand, i int) Input {
 	switch r.Intn(20) {
 	case 0, 1, 2, 3, 4, 5:
 		t, _ := genTime(r)
@@ -631,6 +668,13 @@ func checkOne(c *run.Ctx, in Input) {
 	v := theVM()
 	logger.Events = nil
 	c.Announce(in)
+	if in.Zone != "" {
+		time.Local = loadZone(in.Zone)
+		defer func() { time.Local = time.UTC }()
+		c.Feature("host-zone:" + in.Zone)
+	} else {
+		c.Feature("host-zone:UTC")
+	}
 	fail := func(site, exp, act, detail string) {
 		c.Fail("mismatch", site, in, exp, act, detail)
 	}
@@ -662,14 +706,19 @@ func checkOne(c *run.Ctx, in Input) {
 		if t == t {
 			v.Set("isoRef", refdate.ISO(t))
 			src += "log(Date.parse(isoRef), new Date(isoRef).getTime());"
+			// 15.9.4.2: Date.parse(x.toString()) and Date.parse(x.toUTCString()) are x.valueOf() when
+			// the milliseconds are zero; 15.9.3.2: new Date(dateObject) goes through the same text
+			src += "var d0=new Date(Math.floor(d.getTime()/1000)*1000); log(Date.parse(d0.toString()), Date.parse(d0.toUTCString()), new Date(d0).getTime());"
 		}
+		// 15.9.2.1: Date() is the text of (new Date()).toString() (the clock may tick in between)
+		src += "var n1=new Date().toString(), fn=Date(), n2=new Date().toString(); log(fn===n1||fn===n2, fn, n1);"
 		out, ok := runJS(src)
 		if !ok {
 			return
 		}
-		want := 3
+		want := 4
 		if t == t {
-			want = 4
+			want = 6
 		}
 		if out.Err != nil || len(logger.Events) != want {
 			fail("Date:acc", "script completes", fmt.Sprint(out.Err), "")
@@ -678,6 +727,9 @@ func checkOne(c *run.Ctx, in Input) {
 		got := strings.Split(logger.Events[0], ",")
 		c.Eval(len(accessors) + 2 + len(formatters))
 		for k, a := range accessors {
+			if in.Zone != "" && k >= 10 {
+				break // local accessors depend on the zone
+			}
 			exp := math.NaN()
 			if t == t {
 				exp = a.f(t) + 0
@@ -721,6 +773,22 @@ func checkOne(c *run.Ctx, in Input) {
 			if iso[0] == '+' || iso[0] == '-' {
 				c.Feature("acc:expanded-year-iso")
 			}
+			// text round trips: over the whole range under UTC; under another host zone only where the
+			// zone's abbreviations are unambiguous in the tz database (years 1972..2037)
+			if y := refdate.YearFromTime(t); in.Zone == "" || (y >= 1972 && y <= 2037) {
+				t0 := math.Floor(t/1000)*1000 + 0
+				g4 := strings.Split(logger.Events[4], ",")
+				c.Eval(3)
+				for k, site := range []string{"Date.parse(toString())", "Date.parse(toUTCString())", "new Date(dateObject)"} {
+					if e := "n:" + ox.Num(t0); g4[k] != e {
+						fail(site, e, g4[k], "15.9.4.2 / 15.9.3.2; t="+ox.Num(t0))
+					}
+				}
+				c.Feature("acc:text-round-trip")
+			}
+		}
+		if last := logger.Events[len(logger.Events)-1]; !strings.HasPrefix(last, "b:true") && !strings.HasPrefix(last, "true") {
+			fail("Date()", "the text of (new Date()).toString() (15.9.2.1)", last, "")
 		}
 		c.Sample(in)
 		c.Feature("op:acc")
